@@ -33,9 +33,9 @@ func VerifTreeSeq(kind int, steps int) {
 	} else {
 		m = NewMapCmp[vCK, int16](func(a, b vCK) int {
 			if a.cls < b.cls {
-				return -1
+				return -3 // (any negative number means "less": not only -1)
 			} else if a.cls > b.cls {
-				return 1
+				return 5
 			}
 			return 0
 		})
@@ -156,9 +156,9 @@ func VerifTreeLookupCost(height int, rootN int) {
 	m := NewMapCmp[vK, vK](func(a, b vK) int {
 		calls++
 		if a < b {
-			return -1
+			return -3 // (any negative number means "less": not only -1)
 		} else if a > b {
-			return 1
+			return 5
 		}
 		return 0
 	})
